@@ -107,7 +107,7 @@ def run():
               "engine's end-of-line rule yields the cursor-forward-at-the-margin counterexample). R2: TLC enumerates all 6912 option configurations (2^8 booleans x 3 screen preparations x "
               "3 control-char modes x 3 ice modes) and the small-scope buffers (1-2 rows over the 8-cell alphabet at widths 1,2,3,79,80, left/right margin); every configuration and every buffer "
               "is used at least once; runs of 1..12 control-character glyphs (0x07..0x7F set) x neighbourhoods rotated over every configuration with the IcyTerm control-character handling; plus seeded random buffers (80 x 1..60 and 1..132 x 1..60 with SAUCE, CP437 minus unencodable control characters, 16x16 colours, xterm-256, RGB, bold, blink, "
-              "extended attributes). R3: Trace_AnsiOut compares reloaded and source picture cell by cell (character, shown fg unless glyph-blank, shown bg, blink) and sizes; model layer: "
+              "extended attributes). R3: Trace_AnsiOut compares reloaded and source picture cell by cell (character, shown fg unless glyph-blank, shown bg, blink) and sizes, and IceBlinkState (a file that itself switches the reader to iCE colours with CSI ?33h reads back no cell with the blink attribute); model layer: "
               "token grammar + reader model over the tokenised output (small cases and every 8th large one). distinct_nontrivial = save/reload cases.")
     c.assumptions = ["lossles_output = true (the colour optimiser is C12's), modern_terminal_output = false, output_line_length = None",
                      "glyph-blank cells (NUL, space, 0xFF) are equal when background and blink agree; absent cells are default blanks",
